@@ -202,3 +202,139 @@ class NotifyFieldUpdates(Contract):
       if e.kind == 'raw-set' and not any(e.data[0] is n for n in exp):
         return False
     return True
+
+
+# ---------------------------------------------------------------------------
+# Dispatch discipline of the mutators ("exactly one change event per call ...
+# inside a notifications-disabled scope none is delivered"): on every returning
+# path of the real body of a mutating entry point on which the tree is written,
+#   * if change notification is enabled, `_notify_field_updates` is called
+#     exactly once, after the last write (one batch per call, no per-element
+#     dispatch, no shortcut that skips it -- it is also what invalidates the
+#     cached derived facts);
+#   * if it is disabled, it is not called at all.
+# The symbolic set-up (receiver, C-level payload writes, write primitives,
+# reviewed pure callees) is the one of the C08 dominance contracts; unlike the
+# notification contract above these run on the real mutator bodies for
+# containers of any size, so they are NOT shape-bounded.
+
+from contracts import c08_protect as _c08   # noqa: E402  pylint: disable=wrong-import-position
+
+
+class _Dispatch(_c08._Dom):
+  prop = 'C09'
+  kind = 'dispatch'
+  trace_no_write_unless_permitted = None
+
+  def setup_policy(self, policy):
+    super().setup_policy(policy)
+    # the receiver is writable: this family is about what happens when the
+    # mutation goes ahead
+    policy.handlers[id(base.treats_as_sealed)] = lambda interp, a, k, f: False
+    policy.handlers[id(base.writtable_via_accessors)] = lambda interp, a, k, f: True
+    from pyglove.core.symbolic import flags as _flags
+
+    def enabled(interp, args, kwargs, frame):
+      g = interp.path.ghost
+      if 'notify_enabled' not in g:
+        g['notify_enabled'] = z3.Bool('notification_enabled')
+        interp.path.symbols['notification_enabled'] = g['notify_enabled']
+      return SBool(g['notify_enabled'])
+    policy.handlers[id(_flags.is_change_notification_enabled)] = enabled
+    policy.pure = tuple(p for p in policy.pure if 'is_change_notification_enabled' not in p)
+
+    def notify(interp, frame, args, kwargs):
+      interp.path.event('notify', '_notify_field_updates', None)
+      return None
+    policy.contracts[f'{SB}:Symbolic._notify_field_updates'] = notify
+
+    # the write primitives: either nothing changes (returns None) or the tree
+    # is written and the FieldUpdate describing it is returned
+    def primitive(interp, frame, args, kwargs):
+      if interp.path.decide(2, 'primitive-changes-nothing') == 1:
+        return None
+      interp.path.event('prim-write', '_set_item_without_permission_check', None)
+      return SObj(base.FieldUpdate, {}, name='update')
+    for q in ('pyglove.core.symbolic.list:List', 'pyglove.core.symbolic.dict:Dict', 'pyglove.core.symbolic.object:Object'):
+      policy.contracts[f'{q}._set_item_without_permission_check'] = primitive
+    policy.handlers[('truth', base.FieldUpdate)] = lambda interp, v: True
+
+  def trace_one_dispatch_after_the_writes_none_when_disabled(self, events, outcome, interp, env):
+    if outcome[0] != 'return':
+      return True
+    ws = [i for i, e in enumerate(events) if e.kind in ('prim-write', 'payload-write')]
+    ns = [i for i, e in enumerate(events) if e.kind == 'notify']
+    if not ws:
+      return len(ns) <= 1
+    en = interp.path.ghost.get('notify_enabled')
+    one_after = len(ns) == 1 and ns[0] > max(ws)
+    none = len(ns) == 0
+    if en is None:
+      # the tree was written but the mutator never asked whether notification is
+      # enabled (`_notify_field_updates` itself does not ask): whatever it
+      # does is wrong for one of the two settings
+      return False
+    return z3.If(en, z3.BoolVal(one_after), z3.BoolVal(none))
+
+
+_NATIVE_OPS = {
+    'List.append': lambda r: r.l.append(5), 'List.extend': lambda r: r.l.extend([5, 6]),
+    'List.insert': lambda r: r.l.insert(0, 5), 'List.__setitem__': lambda r: r.l.__setitem__(0, 5),
+    'List.__delitem__': lambda r: r.l.__delitem__(0), 'List.pop': lambda r: r.l.pop(0),
+    'List.__iadd__': lambda r: r.l.__iadd__([5, 6]),
+    'Dict.__setitem__': lambda r: r.d.__setitem__('a', 5), 'Dict.__delitem__': lambda r: r.d.__delitem__('a'),
+    'Dict.pop': lambda r: r.d.pop('a'), 'Dict.popitem': lambda r: r.d.popitem(),
+    'Dict.setdefault': lambda r: r.d.setdefault('zz', 5), 'Dict.update': lambda r: r.d.update({'a': 5}, b=6),
+    'Object.__setattr__': lambda r: setattr(r.o, 'x', 5),
+}
+
+
+def _dispatch_replay(self, obligation, m):
+  class _O(pg.Object):
+    x: pg.typing.Any() = 0
+  key = self.name.split('/')[0]
+  op = _NATIVE_OPS.get(key)
+  if op is None:
+    return dict(outcome='not-concretizable', detail='no native operation registered')
+  bad = []
+  for enabled in (True, False):
+    calls = []
+    r = pg.Dict(l=pg.List([1, 2]), d=pg.Dict(a=1), o=_O(), onchange_callback=lambda updates: calls.append(sorted(str(k) for k in updates)))
+    r.sym_nondefault(); r.sym_missing()
+    with pg.notify_on_change(enabled), pg.allow_writable_accessors(True):
+      op(r)
+    want = 1 if enabled else 0
+    if len(calls) != want:
+      bad.append(f'{key} with notification {"enabled" if enabled else "disabled"}: the root received {len(calls)} change events {calls}, want {want}')
+  return dict(outcome='reproduced' if bad else 'not-reproduced', detail='; '.join(bad) or 'one event when enabled, none when disabled')
+
+
+def _dispatch(name, cls, method, build):
+  tgt_cls = next((k for k in cls.__mro__ if method in k.__dict__), None)
+  target = f'{tgt_cls.__module__}:{tgt_cls.__qualname__}.{method}'
+
+  def inputs(self, b):
+    args = dict(self=self.receiver(b))
+    args.update(build(b))
+    return args, {}
+  c = type(name, (_Dispatch,), dict(target=target, name=f'{cls.__name__}.{method}/dispatch', receiver_cls=cls,
+                                    inputs=inputs, replay=_dispatch_replay, __module__=__name__))
+  globals()[name] = c
+  return register(c)
+
+
+_dany = lambda *names: (lambda b: {n: b.any(n) for n in names})
+_dispatch('DispatchListAppend', pg.List, 'append', _dany('value'))
+_dispatch('DispatchListExtend', pg.List, 'extend', lambda b: dict(other=[b.any('x0'), b.any('x1')]))
+_dispatch('DispatchListInsert', pg.List, 'insert', lambda b: dict(index=b.int('index'), value=b.any('value')))
+_dispatch('DispatchListSetItem', pg.List, '__setitem__', lambda b: dict(index=b.int('index'), value=b.any('value')))
+_dispatch('DispatchListDelItem', pg.List, '__delitem__', lambda b: dict(index=b.int('index')))
+_dispatch('DispatchListPop', pg.List, 'pop', lambda b: dict(index=b.int('index')))
+_dispatch('DispatchListIAdd', pg.List, '__iadd__', lambda b: dict(other=[b.any('x0'), b.any('x1')]))
+_dispatch('DispatchDictSetItem', pg.Dict, '__setitem__', _dany('key', 'value'))
+_dispatch('DispatchDictDelItem', pg.Dict, '__delitem__', _dany('name'))
+_dispatch('DispatchDictPop', pg.Dict, 'pop', _dany('key'))
+_dispatch('DispatchDictPopItem', pg.Dict, 'popitem', lambda b: {})
+_dispatch('DispatchDictSetDefault', pg.Dict, 'setdefault', _dany('key', 'default'))
+_dispatch('DispatchDictUpdate', pg.Dict, 'update', lambda b: dict(other={'k0': b.any('v0')}, k1=b.any('v1')))
+_dispatch('DispatchObjectSetAttr', pg.Object, '__setattr__', lambda b: dict(name='x', value=b.any('value')))
